@@ -46,8 +46,8 @@ func checkC11(r *Run) {
 	r4 := r.Rule("R-C11-4", "reader goroutine: serve() -> Close() -> close(connClosed) on every path, no blocking channel operation in between, single close site, Done() returns that channel")
 	r5 := r.Rule("R-C11-5", "lock order acyclic; no RWMutex read-locked twice on one path")
 	r6 := r.Rule("R-C11-6", "user callbacks (ConnState, OnError, Handler.Serve) are invoked with no library mutex held other than muConnecting")
-	r1.Floor(7)
-	r2.Floor(8)
+	r1.Floor(5)
+	r2.Floor(5)
 	c.ruleCallbacksUnlocked(r6)
 	sites := c.sitesOrLost(r1)
 	c.ruleThreeWaySelect(r1, nil, sites)
